@@ -7,6 +7,7 @@ import (
 	"fmt"
 	"os"
 	"regexp"
+	"runtime"
 	"sort"
 	"strconv"
 	"strings"
@@ -155,6 +156,8 @@ type Worker struct {
 	out       WorkerOut
 	classSig  string // the violation class rapid is currently minimising
 	lastViol  *Violation
+	stateDep  *Violation // a failure that did not repeat once the process's pools had been emptied
+	decode    func(json.RawMessage) (Case, error)
 	start     time.Time
 }
 
@@ -305,6 +308,8 @@ func (wk *Worker) minimise(decode func(json.RawMessage) (Case, error)) {
 			}
 			try := bc.clone()
 			*try.base() = cand
+			runtime.GC() // (as in evalCase: a candidate must fail on its own, not thanks to what the last one left in a pool)
+			runtime.GC()
 			same := false
 			for _, f := range try.Eval(scratch) {
 				if f.Sig == v.Sig {
@@ -324,7 +329,7 @@ func (wk *Worker) minimise(decode func(json.RawMessage) (Case, error)) {
 }
 
 // flakyCases: per property, how to turn an unreproducible in-process failure into a history case.
-var flakyCases = map[string]func() Case{"C11": flakyC11}
+var flakyCases = map[string]func() Case{"C11": flakyC11, "C08": flakyC08}
 
 // recTB lets rapid.Check report into the worker instead of failing the process.
 type recTB struct {
@@ -356,6 +361,11 @@ func (r *recTB) Failed() bool              { return r.failed }
 // only choice source, so its shrinker minimises worlds, schedules and faults
 // alike), each evaluated by its Case.Eval.
 func (wk *Worker) explore(gen func(t *rapid.T) Case) {
+	defer func() {
+		if wk.out.Violation == nil && wk.stateDep != nil {
+			wk.out.Violation = wk.stateDep
+		}
+	}()
 	flag.Set("rapid.nofailfile", "true")
 	flag.Set("rapid.checks", strconv.Itoa(wk.Checks))
 	flag.Set("rapid.shrinktime", "20s")
@@ -443,6 +453,30 @@ func (wk *Worker) evalCase(t *rapid.T, c Case, rs uint64) {
 			continue // while minimising, only the same violation class counts
 		}
 		raw2, _ := json.Marshal(c) // Eval may have narrowed the case (e.g. to the smallest failing offset)
+		// Is the failure the case's own, or does it need what earlier cases left behind in this process?
+		// Two garbage collections empty every sync.Pool; the case is then evaluated once more. Only a
+		// failure that repeats is handed to the shrinker, so what it minimises replays on its own.
+		runtime.GC()
+		runtime.GC()
+		again := false
+		if c2, err := wk.decode(raw2); err == nil {
+			for _, f2 := range c2.Eval(newObs()) {
+				if f2.Sig == f.Sig {
+					again = true
+				}
+			}
+		}
+		if !again {
+			wk.ob.probe("failure_needing_earlier_state")
+			if wk.stateDep == nil {
+				v := &Violation{Property: wk.Prop, Sig: wk.Prop + " outcome-depends-on-earlier-runs", Msg: "failed, but not when evaluated again after the process's pools were emptied: " + f.Sig + ": " + f.Msg, Case: raw2, Seed: rs}
+				if mk := flakyCases[wk.Prop]; mk != nil {
+					v.Case, _ = json.Marshal(mk())
+				}
+				wk.stateDep = v
+			}
+			return
+		}
 		wk.lastViol = &Violation{Property: wk.Prop, Sig: f.Sig, Msg: f.Msg, Case: raw2, Seed: rs}
 		t.Fatalf("%s: %s", f.Sig, f.Msg)
 	}
